@@ -135,11 +135,11 @@ Definition in_lang (l : lang) (s : str) : bool :=
       end
   end.
 
-Inductive value := VStr (s : str) | VInt (z : Z) | VFloat (text : str) | VUuid (hex : str).
+(* VFloat t: a float whose str() is t (values handed to the builder); VFloatRaw t: float(t) for a matched
+   text t, whose str() the model does not know (float() is not computed: the harness applies it) *)
+Inductive value := VStr (s : str) | VInt (z : Z) | VFloat (text : str) | VFloatRaw (text : str) | VUuid (hex : str).
 
-(* converter.to_python; None = ValidationError.  float(text) is not computed: the value is
-   carried as its text (the harness applies float() on both sides); uuid.UUID(text) is carried
-   as its 32 lower-case hex digits *)
+(* converter.to_python; None = ValidationError.  uuid.UUID(text) is carried as its 32 lower-case hex digits *)
 Definition to_python (c : conv) (v : str) : option value :=
   match c with
   | CStr _ _ _ | CAny _ | CPath => Some (VStr v)
@@ -147,7 +147,7 @@ Definition to_python (c : conv) (v : str) : option value :=
       if num_rejects_length fixed (nlen v) then None
       else let n := parse_int v in
            if num_rejects_range n mn mx then None else Some (VInt n)
-  | CFloat _ => Some (VFloat v)
+  | CFloat _ => Some (VFloatRaw v)
   | CUuid => Some (VUuid (map ascii_lower (filter (fun c => negb (c =? MINUS)) v)))
   end.
 
